@@ -26,7 +26,7 @@ ASSUMPTIONS = [
 ]
 MANIFEST = {
     "level": "exploration",
-    "technique": "bounded exhaustive enumeration of reference graphs + Hypothesis-generated programs, oracle = independent reachability computation and an execution simulation for the enforcement half",
+    "technique": "bounded exhaustive enumeration of reference graphs and of in-process helper re-definitions + Hypothesis-generated programs, oracle = independent reachability computation and an execution simulation for the enforcement half (incl. functions handed over as arguments and callers invoked through chained modifiers)",
     "text": "All graphs up to N nodes (with kinds and hidden-edge variants) are enumerated and every reported dependency set / graph edge / refusal is compared with the harness' own graph computation; larger random programs add the other reference forms.",
     "note": "Trusts the harness' reachability and execution simulation (checks/c14.py).",
 }
